@@ -2616,8 +2616,31 @@ VH_TARGET(fref_ops, 2,
   {
     std::ostringstream d;
     size_t r = rd.below(static_cast<uint32_t>(refs.size()));
-    switch (rd.weighted({10, 2, 5, 4, 2, 2}))
+    switch (rd.weighted({10, 2, 5, 4, 2, 2, 3}))
     {
+      case 6:
+      {  // a copy is independent of the reference it was copied from: copy a NON-CONST LVALUE reference, then
+         // re-bind the source object to another callable; the copy must still reach the original callable
+        int t  = refs[r].target;
+        int t2 = static_cast<int>(rd.below(T_N));
+        // (function_ref is not assignable: the source object is destroyed and another reference is created
+        // in the same storage)
+        alignas(FR) unsigned char storage[sizeof(FR)];
+        FR *src = new (storage) FR(refs[r].f);  // a non-const source object
+        FR cp(*src);                             // copy construction from a non-const lvalue
+        src->~FR();
+        src = new (storage) FR(bind(t2));        // the storage now holds a reference to something else
+        int x      = rd.range(-50, 50);
+        long got   = cp(x);
+        long want  = direct(t, x);
+        d << "copy of lvalue ref" << r << "(" << tn[t] << "), source re-bound to " << tn[t2] << ", call copy(" << x << ")";
+        c.tag("copy-outlives-rebinding-of-its-source");
+        c.nontrivial = true;
+        ++calls[t];
+        VH_CHECK(c, got == want, d.str() << " returned " << got << ", direct invocation of the original callable " << want);
+        src->~FR();
+        break;
+      }
       case 0:
       {  // call through a stored reference
         int x      = rd.range(-50, 50);
